@@ -286,7 +286,7 @@ var decodeDocs = map[string]map[string]string{
 	"aud": {"string": `"a"`, "array": `["a","b"]`, "emptyarray": `[]`, "null": `null`, "number": `1`, "object": `{"a":"b"}`, "bool": `true`,
 		"arrayNonString": `["a",1]`, "nestedArray": `[["a"]]`},
 	"time": {"number": `1500000000`, "float": `1500000000.7`, "negnumber": `-5`, "rfc3339": `"2017-07-14T02:40:00Z"`, "rfc3339Offset": `"2017-07-14T04:40:00+02:00"`,
-		"rfc3339Frac": `"2017-07-14T02:40:00.566Z"`, "rfc3339FracOffset": `"2017-07-14T04:40:00.566+02:00"`, "rfc3339FracNegOffset": `"2017-07-13T21:40:00.25-05:00"`, "badstring": `"yesterday"`, "null": `null`,
+		"rfc3339Frac": `"2017-07-14T02:40:00.566Z"`, "rfc3339FracOffset": `"2017-07-14T04:40:00.566+02:00"`, "rfc3339FracNegOffset": `"2017-07-13T21:40:00.25-05:00"`, "farFuture": `253402300799`, "badstring": `"yesterday"`, "null": `null`,
 		"bool": `true`, "object": `{}`, "array": `[1500000000]`, "bigfloat": `1e400`, "numericString": `"1500000000"`},
 	"locale": {"tag": `"de"`, "emptyString": `""`, "unknownTag": `"zz-ZZ"`, "unknownSubtag": `"de-ZZZ"`, "unknownScript": `"en-Abcd"`, "unknownLang": `"qq-CH"`, "malformedTag": `"not a tag!"`, "number": `5`, "null": `null`, "object": `{}`},
 	"locales": {"spaceDelimited": `"de fr"`, "array": `["de","fr"]`, "withUnknown": `["de","zz-ZZ","fr"]`, "emptyString": `""`, "null": `null`, "number": `5`,
@@ -316,7 +316,7 @@ func decodeCase(c M) M {
 				return
 			}
 			want := map[string]int64{"number": 1500000000, "float": 1500000000, "negnumber": -5, "rfc3339": 1500000000, "rfc3339Offset": 1500000000,
-				"rfc3339Frac": 1500000000, "rfc3339FracOffset": 1500000000, "rfc3339FracNegOffset": 1500000000}
+				"rfc3339Frac": 1500000000, "rfc3339FracOffset": 1500000000, "rfc3339FracNegOffset": 1500000000, "farFuture": 253402300799}
 			w, documented := want[form]
 			o["v"] = judge(x.Expiration == 0, documented && int64(x.Expiration) == w)
 		case "locale":
